@@ -112,6 +112,18 @@ static int compare_strings(const unsigned char *string1, const unsigned char *st
 static cJSON_bool compare_double(double a, double b)
 {
     double maxVal = fabs(a) > fabs(b) ? fabs(a) : fabs(b);
+
+    if ((a != a) || (b != b))
+    {
+        /* NaN is not equal to anything */
+        return false;
+    }
+    if (maxVal > DBL_MAX)
+    {
+        /* an infinity is only equal to itself, never to a finite number */
+        return (a == b);
+    }
+
     return (fabs(a - b) <= maxVal * DBL_EPSILON);
 }
 
